@@ -324,8 +324,10 @@ def gen_field(rng, n):
     m = rng.random()
     if m < 0.25:
         return None
-    if m < 0.85:
+    if m < 0.7:
         return rng.randint(-n, n)
+    if m < 0.88:
+        return -n - rng.choice([1, 1, 2, 3, n, n + 1, 2 * n + 5, 100])   # offset from the end reaching past the start
     return rng.randint(-n - 3, n + 3)
 
 
@@ -491,7 +493,7 @@ def view_cases(g, add, rng, with_coords=True):
         add("view", f"CView {gt} [{'; '.join(cpt(p) for p in ring)}] "
             f"({cq(bb[0])}, {cq(bb[1])}, {cq(bb[2])}, {cq(bb[3])})", ("view", gt), True,
             {"op": "extent/boundingbox", "geobox": enc_gb(g), "extent": [[fs(x), fs(y)] for x, y in ring],
-             "bbox": [fs(v) for v in bb]})
+             "bbox": [fs(v) for v in bb]}, judge=("views", {"geobox": enc_gb(g), "seed": 0}))
     if with_coords:
         try:
             cc = g.coordinates
@@ -519,11 +521,17 @@ def view_cases(g, add, rng, with_coords=True):
             add("wld2pix", f"CW2P {gt} {cpt(w)} {cpt((F(p[0]), F(p[1])))}", ("w2p", gt, w))
 
 
+CASE_JUDGE: dict = {}
+
+
 def gen_cases(out, tier):
     rng = core.rng("c02")
     cases = []
+    CASE_JUDGE.clear()
 
-    def add(kind, text, canon, nontrivial=True, sample=None):
+    def add(kind, text, canon, nontrivial=True, sample=None, judge=None):
+        if judge is not None:
+            CASE_JUDGE[len(cases)] = judge
         cases.append(text)
         out.count(kind)
         out.case((kind, canon), nontrivial, sample)
@@ -535,7 +543,8 @@ def gen_cases(out, tier):
             return None
         t, kind, g2 = run_res(lambda: apply_op(g, op))
         add(f"op:{op[0]}:{kind}", f"COp {CFG} {cgb(g)} {cop(op)} {t}", ("op", cgb(g), op), True,
-            {"op": op, "geobox": enc_gb(g), "result": enc_gb(g2) if g2 is not None else kind})
+            {"op": op, "geobox": enc_gb(g), "result": enc_gb(g2) if g2 is not None else kind},
+            judge=("op", {"geobox": enc_gb(g), "op": op, "seed": 0}))
         if gcp is not None and op[0] in GCP_OPS:
             t2, kind2, _ = run_res(lambda: apply_op(gcp, op))
             add(f"gcp-op:{op[0]}:{kind2}", f"CGcpOp {CFG} {cgb(gcp)} {cop(op)} {t2}", ("gcpop", cgb(gcp), op))
@@ -594,7 +603,8 @@ def gen_cases(out, tier):
                 continue
             t, kind2, g2 = run_res(lambda: apply_op(gp, op))
             add(f"gcp-op:{op[0]}:{kind2}", f"CGcpOp {CFG} {cgb(gp)} {cop(op)} {t}", ("gcpop", cgb(gp), op), True,
-                {"op": op, "gcpgeobox": enc_gb(gp), "result": enc_gb(g2) if g2 is not None else kind2} if k < 1 else None)
+                {"op": op, "gcpgeobox": enc_gb(gp), "result": enc_gb(g2) if g2 is not None else kind2} if k < 1 else None,
+                judge=("gcp", {"geobox": enc_gb(gp), "M": [fs(v) for v in M6], "op": op, "seed": 0}))
             if g2 is None:
                 continue
             gp = g2
@@ -639,14 +649,16 @@ def np_select(s, n):
 
 
 def in_domain_index(s, n):
-    """indices the property quantifies over: valid ints, slices with step None/1 whose bounds lie
-    within [-n, n] and that are not reversed"""
+    """indices the property quantifies over: valid ints; slices with step None/1 whose non-negative
+    bounds do not exceed n (GeoBox does not clamp those: documented domain decision), whose negative
+    bounds may be ANY negative number (offsets from the end reaching past the beginning select from
+    element 0 on, like numpy), and that are not reversed"""
     if isinstance(s, int):
         return -n <= s < n
     if s.step not in (None, 1):
         return False
     for v in (s.start, s.stop):
-        if v is not None and not -n <= v <= n:
+        if v is not None and v > n:
             return False
     a, b, _ = s.indices(n)
     return a <= b
@@ -1020,6 +1032,31 @@ def search(out, tier):
             for b in ff:
                 run("op", {"geobox": e, "op": ["getitem", enc_sl(slice(a, b))]})
                 run("op", {"geobox": e, "op": ["getitem", enc_sl((slice(a, b), slice(-nx, None)))]})
+    # crops whose negative bounds reach past the beginning of the axis (numpy clamps them to element 0):
+    # every axis, 1xN / Nx1 / NxM, north-up / mirrored / rotated / sheared affines, linear and GCP boxes
+    affs = [["2", "0", "-8", "0", "-2", "12"], ["-1/2", "0", "3", "0", "1/2", "-4"], ["3", "-4", "10", "4", "3", "-2"],
+            ["0", "-2", "5", "2", "0", "1"], ["1", "1/2", "0", "0", "-1", "7"]]
+    for ai, aff in enumerate(affs):
+        for ny, nx in [(1, 4), (5, 1), (3, 5), (1, 1)]:
+            e = {"shape": [ny, nx], "affine": aff, "crs": CRS_LIST[ai % len(CRS_LIST)]}
+            lows_y = [-ny - 1, -ny - 2, -2 * ny - 3, -100]
+            lows_x = [-nx - 1, -nx - 3, -2 * nx - 1, -100]
+            rois = []
+            for a in lows_y:
+                rois += [slice(a, None), slice(a, ny), slice(a, -ny), slice(a, rng.randint(0, ny)), slice(None, a),
+                         (slice(a, None), slice(None)), (slice(a, rng.randint(-ny, ny)), slice(rng.randint(-nx, 0), None))]
+            for b in lows_x:
+                rois += [(slice(None), slice(b, None)), (slice(None), slice(b, nx)), (slice(None), slice(b, rng.randint(0, nx))),
+                         (slice(None), slice(None, b)), (rng.randint(-ny, ny - 1), slice(b, None)),
+                         (slice(rng.choice(lows_y), None), slice(b, rng.randint(-nx, nx)))]
+            for roi in rois:
+                run("op", {"geobox": e, "op": ["getitem", enc_sl(roi)], "seed": ai})
+            if ai < 3:
+                eg = dict(e, affine=[["1", "0", "0", "0", "1", "0"], ["2", "0", "1", "0", "2", "-1"],
+                                     ["1", "0", "2", "0", "1", "3"]][ai], crs=e["crs"] or "epsg:4326")
+                for roi in rois[::3]:
+                    if isinstance(roi, tuple):
+                        run("gcp", {"geobox": eg, "M": aff, "op": ["getitem", enc_sl(roi)], "seed": ai})
     # GCP geoboxes
     for k in range(40 if tier == "quick" else 400):
         e, _ = gen_gbox_enc(rng)
@@ -1032,7 +1069,9 @@ def search(out, tier):
             None, ["pad", 1, 2], ["pad", 2, None], ["pad_wh", 4, 3], ["pad_wh", 3, None], ["pad_wh", 2, 5],
             ["zoom_out", "2"], ["zoom_out", "1/2"], ["zoom_to_shape", 2 * ny, 4 * nx], ["zoom_to_n", "4"],
             ["center_pixel"], ["getitem", -1], ["getitem", enc_sl((slice(None), -1))],
-            ["getitem", enc_sl((slice(-2, None), slice(None, -1)))]]
+            ["getitem", enc_sl((slice(-2, None), slice(None, -1)))],
+            ["getitem", enc_sl((slice(-ny - 2, None), slice(-nx - 1, nx)))],
+            ["getitem", enc_sl((slice(-ny - 5, -1), slice(-100, None)))]]
         for op in ops:
             if op is not None and (op[0] not in GCP_OPS or not op_exact(gp, op)):
                 continue
@@ -1063,6 +1102,24 @@ def run(out, tier, scratch):
     if fails:
         detail = "model and implementation differ on: " + " | ".join(cases[i] for i in fails[:4])
     out.oblige("correspondence:Model.GeoBoxOps vs odc.geo.geobox/gcp/geom/math", "correspondence", not fails, detail)
+    # a disagreement is judged on that very input with the property's own predicate (independent
+    # references: numpy indexing, exact Fraction arithmetic), so that it becomes the concrete replay
+    # whenever it is a violation of the property and not only of the model
+    judged = set()
+    for i in fails:
+        if i not in CASE_JUDGE or len(judged) >= 12:
+            continue
+        name, args = CASE_JUDGE[i]
+        try:
+            ok, det = call_pred(name, args)
+        except Exception as e:  # noqa: BLE001
+            ok, det = False, f"raised {type(e).__name__}: {e}"
+        out.count("predicate-on-disagreement:" + name)
+        key = f"c02:{name}" + (":" + args["op"][0] if name == "op" else "")
+        if not ok and key not in judged:
+            judged.add(key)
+            out.violation(key, f"{name} {args}: {det}", {"predicate": name, "args": args, "observed": det,
+                                                         "found_by": "correspondence disagreement: " + cases[i][:400]})
     search(out, tier)
 
 
